@@ -344,7 +344,10 @@ def run_check(mod, tier: str, seed: int, replay: Optional[str] = None) -> int:
                                      budget=getattr(mod, "SHRINK_BUDGET", 80 if tier == "quick" else 300))
                 except Exception:
                     pass
-        path = os.path.join("replays", f"{prop}-{jhash(sig)}.json")
+        # runs against another tree (VERIF_REPO: mutants, seeded changes) keep their output apart from what is
+        # committed as evidence of /repo itself
+        path = os.path.join(".work/alt-tree/replays" if os.environ.get("VERIF_REPO") else "replays", f"{prop}-{jhash(sig)}.json")
+        os.makedirs(os.path.dirname(os.path.join(VERIF, path)), exist_ok=True)
         with open(os.path.join(VERIF, path), "w") as fh:
             json.dump({"property": prop, "signature": sig, "message": v["msg"], "case": case}, fh, indent=1, default=str)
         out_lines.append(f"VIOLATION property={prop} replay={path}")
@@ -377,8 +380,9 @@ def run_check(mod, tier: str, seed: int, replay: Optional[str] = None) -> int:
         "wall_s": round(wall, 2),
         "violations": len(viols),
     }
-    os.makedirs(os.path.join(VERIF, "evidence"), exist_ok=True)
-    with open(os.path.join(VERIF, "evidence", f"{prop}.json"), "w") as fh:
+    ev_dir = os.path.join(VERIF, ".work/alt-tree/evidence" if os.environ.get("VERIF_REPO") else "evidence")
+    os.makedirs(ev_dir, exist_ok=True)
+    with open(os.path.join(ev_dir, f"{prop}.json"), "w") as fh:
         json.dump(ev, fh, indent=1, default=str)
     print(
         f"{prop} {tier} seed={seed}: {evaluations} cases, {len(nontrivial)} distinct non-trivial, "
